@@ -56,3 +56,36 @@ Proof.
   intros Hpi Hpi' Hwf0. apply main_order_independent; try assumption.
   split; [reflexivity|]. split; apply Permutation.Permutation_refl.
 Qed.
+
+(* ---------- the cut-off is the only thing the constant 100 decides ------------------ *)
+
+Lemma pass_loop_mono P order k d s u r :
+  pass_loop P order k s u = r -> r <> RErr ETooManyIter -> pass_loop P order (k + d) s u = r.
+Proof.
+  revert s u. induction k as [|k IH]; intros s u H Hr.
+  - cbn [pass_loop] in H. destruct d as [|d]; cbn [Nat.add pass_loop].
+    + exact H.
+    + destruct (st_updates s =? u); [exact H|].
+      destruct (walk_ordered P order s); try exact H. congruence.
+  - cbn [Nat.add pass_loop] in *. destruct (st_updates s =? u); [exact H|].
+    destruct (walk_ordered P order s); try exact H. apply IH; assumption.
+Qed.
+
+(* any outcome other than "too many iterations" is the outcome for every larger cut-off *)
+Theorem cutoff_only cut d pi P r :
+  resolve_cut cut pi P = r -> r <> RErr ETooManyIter -> resolve_cut (cut + d) pi P = r.
+Proof.
+  unfold resolve_cut. destruct (first_dup [] (fnames P)); [auto|].
+  destruct (ordered_funcs pi P) as [order|]; [|auto].
+  unfold resolve_order. destruct (first_dup [] (fnames P)); [auto|].
+  destruct (record_var P _ [] n_ARGV TArray) as [s1| | |]; cbn [rbind2]; auto.
+  destruct (record_var P s1 [] n_ENVIRON TArray) as [s2| | |]; cbn [rbind2]; auto.
+  destruct (record_var P s2 [] n_FIELDS TArray) as [s3| | |]; cbn [rbind2]; auto.
+  destruct (walk_ordered P order s3) as [s4| | |]; cbn [rbind2]; auto.
+  intros H Hr.
+  destruct (pass_loop P order cut s4 (st_updates s3)) as [s5|e| |] eqn:E; cbn [rbind2] in H.
+  - rewrite (pass_loop_mono P order cut d s4 _ _ E ltac:(discriminate)). exact H.
+  - rewrite (pass_loop_mono P order cut d s4 _ _ E ltac:(congruence)). exact H.
+  - rewrite (pass_loop_mono P order cut d s4 _ _ E ltac:(discriminate)). exact H.
+  - rewrite (pass_loop_mono P order cut d s4 _ _ E ltac:(discriminate)). exact H.
+Qed.
